@@ -25,7 +25,7 @@ func c15Cfg() *DeclCfg {
 		Kinds:   append(append([]string{}, allKinds...), "map[string]int", "map[string]string", "map[int]string", "map[string]string", "[]string", "uptr", "level", "ulist"),
 		MinOpts: 1, MaxOpts: 5, MaxGroups: 2, MaxSub: 1, MaxCmds: 3, MaxDepth: 2, Exec: true,
 		Env: true, Defaults: true, Required: true, Choices: true, Optional: true, Hidden: true, NoIni: true, IniName: true,
-		Base: true, Pos: true, Namespaces: true, Init: true, InitMulti: true, Descriptions: true, Aliases: true, ShortOnly: true, MultiByte: true, DottedCmds: true, DupTags: true, ManyAliases: true, CapCmds: true, BigGroup: true, CaseLongs: true,
+		Base: true, Pos: true, Namespaces: true, Init: true, InitMulti: true, Descriptions: true, Aliases: true, ShortOnly: true, MultiByte: true, DottedCmds: true, DupTags: true, ManyAliases: true, CapCmds: true, BigGroup: true, CaseLongs: true, PtrGroups: true,
 		ParserOpts: []uint{0, optHelpFlag, optHelpFlag | optPassDoubleDash, optHelpFlag | optPrintErrors | optPassDoubleDash, optIgnoreUnknown, optPassAfterNonOption | optHelpFlag, optHelpFlag | optIgnoreUnknown | optPrintErrors},
 	}
 }
@@ -156,8 +156,12 @@ func (propC15) Gen(r *Rng, idx int, tier string) *Scenario {
 	}
 	for _, oi := range optInfos(sc.Decl) {
 		if oi.O.Env != "" && wr.Chance(1, 2) {
-			// env keys are assigned with namespaces by the library; set both spellings
+			// the variable the library looks up carries the env-namespaces; set that one
+			// and the bare key
 			sc.World.Env[oi.O.Env] = BStr(iniValText(wr, oi.O))
+			if full := envFullOf(sc.Decl, oi); full != "" && full != oi.O.Env {
+				sc.World.Env[full] = BStr(iniValText(wr, oi.O))
+			}
 		}
 	}
 	or := r.Fork("ops")
@@ -497,7 +501,7 @@ func (propC15) Judge(sc *Scenario) *Verdict {
 		var cands []int
 		for i, op := range sc.Ops {
 			switch {
-			case op.Kind == "help" || op.Kind == "man" || (op.Kind == "iniwrite" && op.File == ""):
+			case op.Kind == "help" || op.Kind == "man" || op.Kind == "iniwrite":
 				cands = append(cands, i)
 			case op.Kind == "parse" && i > 0 && sc.Ops[i-1].Kind == "setenv" && sc.Ops[i-1].Key == "GO_FLAGS_COMPLETION" && sc.Decl.CompHandler:
 				cands = append(cands, i)
